@@ -25,8 +25,8 @@ ASSUMPTIONS = ['marker variant: strings only in single-chunk last segments (as t
                "segment's metadata is complete"]
 REQUIRED = ['reads_through_wrapped_stream', 'reads_with_intact_index', 'memmap_reads', 'tall_files', 'long_files', 'cuts', 'cuts_in_raw_data', 'cuts_in_metadata', 'cuts_in_lead_in', 'status_checked', 'lazy_eager_compared', 'prefix_checked',
             'variant:explicit', 'variant:marker', 'cuts_checked']
-N = {'quick': 130, 'thorough': 16000}
-NDAQ = {'quick': 60, 'thorough': 6000}
+N = {'quick': 130, 'thorough': 4000}
+NDAQ = {'quick': 60, 'thorough': 1500}
 
 
 def gen_cases(tier, seed):
